@@ -212,3 +212,8 @@ mod tests {
         assert_ne!(resp.header.ec, 0, "method-not-found is an error response");
     }
 }
+
+#[cfg(kani)]
+mod verif_kani {
+    include!(concat!(env!("REPE_VERIF_KANI"), "/server_request.rs"));
+}
